@@ -153,7 +153,7 @@ def ietfOpVerdict (op : Json) : IetfVerdict :=
 /-- fold over the operations: first non-ok verdict wins. `DecodePatch` runs first and refuses
     any element that is not an object. -/
 def ietfVerdict (ops : List Json) : IetfVerdict :=
-  if !(ops.all fun o => match o with | .obj _ => true | _ => false) then .err
+  if !(ops.all isObjB) then .err
   else
     let rec go : List Json → IetfVerdict
       | [] => .ok
